@@ -47,7 +47,8 @@ def install(ex):
     ex.model(r'tracing::.*|tracing_core::.*|<tracing::.*', lambda e, n, a: Opaque('tracing'))
     # reading a gauge yields an arbitrary number (it may be combined arithmetically with program values)
     ex.model(r'vise::.*Gauge.*::get', lambda e, n, a: e.fresh('gauge'))
-    ex.model(r'vise::.*|<vise::.*|.*::metrics::.*', lambda e, n, a: Opaque('metrics'))
+    # functions of a `metrics` module (not every function whose generic arguments mention a metrics type)
+    ex.model(r'vise::.*|<vise::.*|(\w+::)+metrics::.*|<(\w+::)+metrics::.*', lambda e, n, a: Opaque('metrics'))
     ex.error_from = lambda e, n, v: v if not re.search(r'Result<.*anyhow::Error>', M.parse_name(n)[0]) else anyhow_err()
 
 
